@@ -212,6 +212,9 @@ class DistributedNetwork(BaseManager):
         # A child advertising branch values does not become our parent (also not
         # over another connection): we would be each others parent
         if any(child.username == peer.username for child in self.children):
+            # A second connection of a child is of no use
+            if peer not in self.children:
+                await peer.connection.disconnect(reason=CloseReason.REQUESTED)
             return
 
         # Explicit None checks because we can get 0 as branch level
